@@ -36,7 +36,7 @@ def _shape(op):
     if nx:
         lab += "bad" if f[x + 2].endswith(";-") else "ok"
     valid = sum(1 for h in hops if not h.endswith(";-"))
-    lab += "/hops%s/valid%s" % ("0" if nf == 0 else "1-2" if nf <= 2 else "3+", "0" if valid == 0 else "1" if valid == 1 else "2+")
+    lab += "/hoptokens%s/valid%s" % ("0" if nf == 0 else "1-2" if nf <= 2 else "3+", "0" if valid == 0 else "1" if valid == 1 else "2+")
     return lab
 
 
@@ -60,12 +60,14 @@ def c16_stats(cases, model):
                 peer_text = f[2].rsplit(";", 1)[0]
                 chosen["peer" if i == peer_text else "header"] += 1
             elif k in ("new", "reload"):
-                if i == "err":
+                if i.startswith("err"):
                     cfg_err += 1
-                outs[k + (":err" if i == "err" else ":ok")] += 1
+                outs[k + (":err" if i.startswith("err") else ":ok")] += 1
             elif k == "mem":
                 outs["mem:" + i] += 1
-    return dict(verdicts=_verdict_stats(cases, model), ops=dict(ops), outcomes=dict(outs), request_shapes=dict(shapes),
+    bad = sum(1 for c in cases for i in (c.get("impl") or []) if i == "bad-op")
+    bad += sum(1 for ms in model for m, _ in ms if m in ("bad-op", "<driver-missing>"))
+    return dict(verdicts=_verdict_stats(cases, model), ops=dict(ops), bad_ops=bad, outcomes=dict(outs), request_shapes=dict(shapes),
                 address_taken_from=dict(chosen), servers=dict(servers), config_errors=cfg_err,
                 proxy_generator_in_sync=_gen_in_sync(),
                 max_case_len=max(lens or [0]), mean_case_len=round(sum(lens) / max(1, len(lens)), 1))
